@@ -479,35 +479,31 @@ Definition quiescent (w : world) : Prop := forall t, In t (threads w) -> live (t
    before each visible one. *)
 Definition taus : list eff := [TEnter; TRegEOF; TRegFault; TCheck; TIOFault].
 
-Definition try_taus1 (c : cfg) (w : world) (i : tid) (l : label) : option world :=
-  fold_right (fun e acc =>
-    match acc with Some _ => acc | None =>
-      match step c w (Eff i e) with Some w1 => step c w1 l | None => None end end) None taus.
+(* all worlds reachable from w by at most two internal events of thread i followed by l *)
+Definition opt_list {A} (o : option A) : list A := match o with Some x => [x] | None => [] end.
 
-Definition try_taus2 (c : cfg) (w : world) (i : tid) (l : label) : option world :=
-  fold_right (fun e acc =>
-    match acc with Some _ => acc | None =>
-      match step c w (Eff i e) with Some w1 => try_taus1 c w1 i l | None => None end end) None taus.
+Definition via_taus1 (c : cfg) (w : world) (i : tid) (l : label) : list world :=
+  flat_map (fun e => match step c w (Eff i e) with Some w1 => opt_list (step c w1 l) | None => [] end) taus.
 
-Definition accept1 (c : cfg) (w : world) (l : label) : option world :=
+Definition via_taus2 (c : cfg) (w : world) (i : tid) (l : label) : list world :=
+  flat_map (fun e => match step c w (Eff i e) with Some w1 => via_taus1 c w1 i l | None => [] end) taus.
+
+(* a direct step is preferred; otherwise every way of inserting internal events *)
+Definition accept1 (c : cfg) (w : world) (l : label) : list world :=
   match step c w l with
-  | Some w' => Some w'
+  | Some w' => [w']
   | None =>
       match l with
-      | Eff i e =>
-          match try_taus1 c w i l with
-          | Some w' => Some w'
-          | None => try_taus2 c w i l
-          end
-      | _ => None
+      | Eff i e => match via_taus1 c w i l with [] => via_taus2 c w i l | ws => ws end
+      | _ => []
       end
   end.
 
-(* returns the world reached, or the index of the first label that is not accepted *)
-Fixpoint accept (c : cfg) (w : world) (ls : list label) (k : nat) : world + nat :=
+(* the set of model worlds compatible with an observed label sequence *)
+Fixpoint accept (c : cfg) (ws : list world) (ls : list label) : list world :=
   match ls with
-  | [] => inl w
-  | l :: r => match accept1 c w l with Some w' => accept c w' r (S k) | None => inr k end
+  | [] => ws
+  | l :: r => accept c (flat_map (fun w => accept1 c w l) ws) r
   end.
 
 (* finish: let thread i take internal steps until it is done (used to read off its result) *)
